@@ -21,10 +21,6 @@ def Honours (op : Op) (o : Out) (c : Nat) : Prop :=
   | .tokenProcess _, .tokens (some code) _ _ _ _ => code = c
   | _, _ => False
 
-theorem findTok_mem {s : St} {c : Nat} {t : Tok} (h : findTok s c = some t) : t ∈ s.toks ∧ t.id = c := by
-  unfold findTok at h
-  exact ⟨List.mem_of_find?_eq_some h, by simpa using List.find?_some h⟩
-
 theorem dead_inactive {s : St} {c : Nat} {t : Tok} (hd : Dead s c) (h : findTok s c = some t) :
     tokActive s.now t = false := by
   obtain ⟨hm, hid⟩ := findTok_mem h
@@ -323,9 +319,9 @@ theorem revoke_ep_is_local (cfg : Cfg) (s : St) (client : Str) (tok : Nat) (t : 
 
 /-- non-vacuity: a reachable state with a live token that a revocation then kills -/
 example : ∃ cfg : Cfg, ∃ s : St, Inv s ∧ ∃ t ∈ s.toks, tokActive s.now t = true :=
-  ⟨{ oidc := true, rule := fun _ => { mints := [], expiresIn := 10 }, revokeRefreshOnIssue := false,
+  ⟨{ oidc := true, jwt := false, rule := fun _ => { mints := [], expiresIn := 10 }, revokeRefreshOnIssue := false,
      allowed := fun _ => [], grantExpiresIn := 0, authnExpiresIn := 10 },
-   (step { oidc := true, rule := fun _ => { mints := [], expiresIn := 10 }, revokeRefreshOnIssue := false,
+   (step { oidc := true, jwt := false, rule := fun _ => { mints := [], expiresIn := 10 }, revokeRefreshOnIssue := false,
            allowed := fun _ => [], grantExpiresIn := 0, authnExpiresIn := 10 } {} (.authorize [1] [2] [] none)).1,
    (step_adv _ _ _).inv inv_init, by decide⟩
 
